@@ -829,7 +829,7 @@ def gbs_case(res, case, marg=6):
             if np.max(np.abs(sem.Y)) > 1e-12 or not ph.is_symplectic(sem.X, 1e-8):
                 res.violation("C20|VibronicTransition|unitary-gaussian", f"VibronicTransition is not a symplectic map for {txt}", case)
             if not close(sem.X, X_ref, 1e-8, 1e-9):
-                res.violation("C20|VibronicTransition|doktorov-symplectic", f"VibronicTransition(gbs_params(..)) acts on quadratures with a matrix differing from the Doktorov transformation x'=Jx, p'=J^-T p by {maxdiff(sem.X, X_ref):.3g}" + (" (it is x'=J^-T x, p'=J p: squeezing of the wrong sign)" if close(sem.X, np.linalg.inv(X_ref).T, 1e-8, 1e-9) else "") + f" for {txt}", case)
+                res.violation("C20|VibronicTransition|doktorov-symplectic" + ("|inverse-transpose" if close(sem.X, np.linalg.inv(X_ref).T, 1e-8, 1e-9) else ""), f"VibronicTransition(gbs_params(..)) acts on quadratures with a matrix differing from the Doktorov transformation x'=Jx, p'=J^-T p by {maxdiff(sem.X, X_ref):.3g}" + (" (it is x'=J^-T x, p'=J p: squeezing of the wrong sign)" if close(sem.X, np.linalg.inv(X_ref).T, 1e-8, 1e-9) else "") + f" for {txt}", case)
             if not close(sem.d, d_ref, 1e-8, 1e-9):
                 res.violation("C20|VibronicTransition|doktorov-displacement", f"VibronicTransition displaces by {np.round(sem.d, 8).tolist()}, Doktorov operator by {np.round(d_ref, 8).tolist()} for {txt}", case)
         except Exception as e:
